@@ -49,7 +49,7 @@ def IsValidDataType(str_val, data_type, charset='B', icvn='00401'):
                 raise IsValidError
         elif data_type == 'RD8':
             if '-' in str_val:
-                (start, end) = str_val.split('-')
+                (start, end) = str_val.split('-', 1)
                 return IsValidDataType(start, 'D8', charset) and IsValidDataType(end, 'D8', charset)
             else:
                 return False
